@@ -354,6 +354,9 @@ func c18Case(r *obs.Run, i int) {
 				p = r.Rng.Float64()
 			case 1:
 				p = math.Pow(10, -25*r.Rng.Float64())
+				if k%12 == 1 { // far below the probability of the largest score: the nearest representable score is the largest one
+					p = math.Pow(10, -25-300*r.Rng.Float64())
+				}
 			default:
 				p = 1 - math.Pow(10, -12*r.Rng.Float64())
 			}
@@ -363,7 +366,11 @@ func c18Case(r *obs.Run, i int) {
 			if i == 6 {
 				a := -10 * math.Log10(p)
 				want := math.Floor(a + 0.5)
-				judged := !nearTie(a) && want <= 253
+				if want > 254 {
+					want = 254 // saturates: 254 is the largest score (p = 0 sentinel included)
+					r.Count("probabilities_below_the_largest_score", 1)
+				}
+				judged := !nearTie(a) && (want <= 253 || a > 255)
 				r.Note(fmt.Sprintf("pe/%x", math.Float64bits(p)), judged)
 				if !judged {
 					continue
